@@ -164,6 +164,15 @@ SCENARIOS = {
     "S3": ("p256", [("verify1", "verify2"), ("verify1", "verify-bad"), ("verify-bad", "verify1")]),
     "S1p": ("p256", [("G*k1", "G*k2"), ("G*k1", "G.mul_add")]),
 }
+# scenarios explored with TWO preemptions at shared-state accesses; value: ordered pairs for the quick tier (None = all pairs)
+TWO_PREEMPTIONS = {
+    "S2": None,
+    "S5": None,
+    "S1": [("G.to_bytes", "G*k1"), ("G==P", "G*k1"), ("G*k1", "G.to_bytes")],
+    "S6": [("GZ*k1", "GZ*k2"), ("GZ*k1", "GZ.scale"), ("GZ.scale", "GZ*k1"), ("GZ*k1", "GZ.to_affine"), ("GZ.scale", "GZ.to_affine"),
+           ("GZ==G", "GZ.scale")],
+    "S4": [("P.mul_add(Q)", "Q.mul_add(P)"), ("P+Q", "P.mul_add(Q)"), ("P.mul_add(Q)", "P+Q")],
+}
 CHUNK_POINTS = 48
 _CACHE = {}
 
@@ -236,6 +245,122 @@ def run_with_preemption(fnA, fnB, shared, at, level="line"):
     return a, box.get("b", "B-not-run")
 
 
+# ---- two preemptions at shared-state accesses -------------------------------------------------------------------------------
+# Scheduling points are the line events of lines that touch state reachable from both threads: attribute accesses on
+# self / other and uses of module-level variables, found in the AST of every traced file.  Lines without such an access
+# commute with everything the other thread does, so preempting anywhere between two shared accesses is equivalent to
+# preempting right before the later one (the usual partial-order argument, at line granularity).
+_SHARED = {}
+
+
+def shared_lines(filename):
+    if filename not in _SHARED:
+        import ast
+        lines = set()
+        try:
+            with open(filename) as fh:
+                tree = ast.parse(fh.read())
+        except (OSError, SyntaxError):
+            _SHARED[filename] = lines
+            return lines
+        module_vars = set()
+        for node in tree.body:
+            if isinstance(node, (ast.Assign, ast.AugAssign, ast.AnnAssign)):
+                for t in (node.targets if isinstance(node, ast.Assign) else [node.target]):
+                    for n in ast.walk(t):
+                        if isinstance(n, ast.Name):
+                            module_vars.add(n.id)
+        for node in ast.walk(tree):
+            if isinstance(node, ast.Attribute) and isinstance(node.value, ast.Name) and node.value.id in ("self", "other", "cls"):
+                lines.add(node.lineno)
+            elif isinstance(node, ast.Name) and node.id in module_vars:
+                lines.add(node.lineno)
+            elif isinstance(node, (ast.Global, ast.Nonlocal)):
+                lines.add(node.lineno)
+        _SHARED[filename] = lines
+    return _SHARED[filename]
+
+
+def _shared_tracer(on_shared):
+    def local(frame, event, arg):
+        if event == "line" and frame.f_lineno in shared_lines(frame.f_code.co_filename):
+            on_shared(frame)
+        return local
+
+    def tracer(frame, event, arg):
+        if event == "call" and frame.f_code.co_filename.startswith(TRACED_PREFIX):
+            return local
+        return None
+    return tracer
+
+
+def count_shared(fn, shared):
+    n = [0]
+    where = []
+
+    def on(frame):
+        n[0] += 1
+        where.append((frame.f_code.co_filename.rsplit("/", 1)[-1], frame.f_lineno))
+    sys.settrace(_shared_tracer(on))
+    try:
+        fn(shared)
+    finally:
+        sys.settrace(None)
+    return n[0], where
+
+
+def run_two(fnA, fnB, shared, i, j):
+    """A runs up to its i-th shared access, B runs up to its j-th shared access, A runs to its end, B runs to its end.
+    Returns (result A, result B, B was paused at j)."""
+    ev_a = threading.Event()
+    ev_b = threading.Event()
+    box = {"paused": False}
+    cb = [0]
+
+    def on_b(frame):
+        if cb[0] == j and not box["paused"]:
+            box["paused"] = True
+            ev_a.set()
+            ev_b.wait()
+        cb[0] += 1
+
+    def run_b():
+        sys.settrace(_shared_tracer(on_b))
+        try:
+            try:
+                box["b"] = fnB(shared)
+            except BaseException as e:  # noqa
+                box["b"] = "raised %s: %s" % (type(e).__name__, e)
+        finally:
+            sys.settrace(None)
+            ev_a.set()
+    ca = [0]
+    th = []
+
+    def on_a(frame):
+        if ca[0] == i and not th:
+            t = threading.Thread(target=run_b)
+            th.append(t)
+            t.start()
+            ev_a.wait()
+        ca[0] += 1
+    sys.settrace(_shared_tracer(on_a))
+    try:
+        try:
+            a = fnA(shared)
+        except BaseException as e:  # noqa
+            a = "raised %s: %s" % (type(e).__name__, e)
+    finally:
+        sys.settrace(None)
+        ev_b.set()
+        for t in th:
+            t.join()
+    return a, box.get("b", "B-not-run"), box["paused"]
+
+
+CHUNK2 = 3
+
+
 def points_for(ctx, name, a, level="line"):
     mk, ops = scenario_ops(name)
     events, _ = trace_events(ops[a][0], mk(), level)
@@ -268,9 +393,45 @@ def cases(ctx):
                     yield ("curve-op", name, a, b, c, 0)
         for a in ops:
             yield ("curve-seq", name, a)
+        if name in TWO_PREEMPTIONS and (SCENARIOS[name][0] == "small" or not ctx.quick):
+            for a, b in (pairs if not ctx.quick or TWO_PREEMPTIONS[name] is None else TWO_PREEMPTIONS[name]):
+                na, _ = count_shared(ops[a][0], mk())
+                for i0 in range(0, na, CHUNK2):
+                    yield ("curve2", name, a, b, i0)
+
+
+def run_case2(ctx, case):
+    _, name, a, b, i0 = case
+    mk, ops = scenario_ops(name)
+    fa, ea = ops[a]
+    fb, eb = ops[b]
+    na, where_a = count_shared(fa, mk())
+    o = Outcome("agree", True)
+    n = 0
+    for i in range(i0, min(na, i0 + CHUNK2)):
+        j = 0
+        while True:
+            ra, rb, paused = run_two(fa, fb, mk(), i, j)
+            n += 1
+            if rb == "B-not-run":
+                o.viol("curve|harness", "two-preemption point %d of %s was not reached" % (i, a))
+                return o
+            if ra != ea or rb != eb:
+                o.cls = "schedule-dependent"
+                o.viol("curve2|%s|%s-vs-%s" % (name, a, b),
+                       "%s: A=%s preempted before its shared access %d (%s:%d), B=%s preempted before its shared access %d, A finished, B finished: "
+                       "A -> %r (expected %r), B -> %r (expected %r)" % (name, a, i, where_a[i][0], where_a[i][1], b, j, ra, ea, rb, eb))
+                return o
+            if not paused:        # B ended before reaching its j-th shared access: every longer j is the same schedule
+                break
+            j += 1
+    o.extra = {"two_preemption_schedules": n}
+    return o
 
 
 def run_case(ctx, case):
+    if case[0] == "curve2":
+        return run_case2(ctx, case)
     if case[0] == "curve-seq":
         _, name, a = case
         mk, ops = scenario_ops(name)
